@@ -62,7 +62,6 @@ class RdfBuilder:
         self.nss = []
         for p, u in r.sample(NSS, r.randint(1, 3)):
             w.add_ns(d, p, u)
-            self.nss.append(w.conts[d]._namespaces[p] if hasattr(w.conts[d]._namespaces, "__getitem__") else None)
         self.nss = list(w.conts[d].get_registered_namespaces())
         self.fill(d, r.randint(1, 8))
         for _ in range(r.choice([0, 0, 1, 2])):
